@@ -153,6 +153,8 @@ func runC19(c *Ctx) {
 	}
 	// ---- GeneralizedTime (cryptobyte)
 	timeZoneRules(c)
+	c19Extras3(c)
+	c.borrow(c21Extras, func(o *Obligation) bool { return o.Rule == "R-INIT" })
 	if fn :=w.Fn(cbFn("ReadASN1GeneralizedTime")); fn != nil {
 		c.Cut(CutSpec{Rule: "R-VSET", Fn: fn, Label: "GeneralizedTime accepted only if re-formatting reproduces the input", Target: TrueReturn(0, nil),
 			Cut: Cmp(func(v ssa.Value) bool {
